@@ -101,6 +101,9 @@ class SymDataArray:
             return self.coords[key]
         raise Unsupported("DataArray indexing")
 
+    def __getattr__(self, name):
+        raise AttributeError("DataArray.%s is not modelled" % name)
+
 
 class _DataVars(OrderedDict):
     pass
@@ -165,6 +168,9 @@ class SymDataset:
 
     def __iter__(self):
         return iter(list(self.data_vars.keys()))
+
+    def __getattr__(self, name):
+        raise AttributeError("Dataset.%s is not modelled" % name)
 
     def keys(self):
         return self.data_vars.keys()
